@@ -38,6 +38,31 @@ impl From<CallSiteKind> for Kind {
     }
 }
 
+#[cfg(tracing_toolbox_verif)]
+static VERIF_YIELD: RwLock<Option<Box<dyn Fn(&'static str) + Send + Sync>>> = RwLock::new(None);
+
+/// Verification hook: installs (or removes) a callback invoked at the yield points between
+/// the lookup and insertion phases of interning.
+#[cfg(tracing_toolbox_verif)]
+pub fn verif_set_yield(callback: Option<Box<dyn Fn(&'static str) + Send + Sync>>) {
+    *VERIF_YIELD.write().unwrap() = callback;
+}
+
+#[cfg(tracing_toolbox_verif)]
+fn verif_yield(point: &'static str) {
+    if let Some(callback) = VERIF_YIELD.read().unwrap().as_ref() {
+        callback(point);
+    }
+}
+
+/// Verification hook: numbers of interned strings and metadata objects.
+#[cfg(tracing_toolbox_verif)]
+pub fn verif_arena_stats() -> (usize, usize) {
+    let strings = ARENA.lock_strings().len();
+    let metadata = ARENA.lock_metadata().values().map(Vec::len).sum();
+    (strings, metadata)
+}
+
 #[derive(Debug, Default)]
 struct DynamicCallSite {
     metadata: OnceCell<&'static Metadata<'static>>,
@@ -88,6 +113,8 @@ impl Arena {
             return existing;
         }
 
+        #[cfg(tracing_toolbox_verif)]
+        verif_yield("str:after-read");
         let mut lock = self.lock_strings_mut();
         if let Some(existing) = lock.get(s.as_ref()).copied() {
             return existing;
@@ -150,6 +177,8 @@ impl Arena {
             }
         };
 
+        #[cfg(tracing_toolbox_verif)]
+        verif_yield("meta:after-read");
         let mut lock = self.lock_metadata_mut();
         let bucket = lock.entry(hash_value).or_default();
         for &metadata in &bucket[scanned_bucket_len..] {
